@@ -96,8 +96,9 @@ Definition readdirfile_readdir (s : St) (h : nat) (n : Z) : St * res :=
   | x => x
   end.
 
-(* ---- /repo/match.go Glob / glob over filesystem calls (the element matcher and the name loop are
-        Model/Glob.v's); lstatIfPossible is Stat for every stack used here *)
+(* ---- /repo/match.go Glob / glob over filesystem calls (the element matcher, the name loop, hasMeta
+        and the two behaviour switches read from match.go are Model/Glob.v's); lstatIfPossible is Stat
+        for every stack used here *)
 Definition io_glob1 (s : St) (dir pattern : str) (matches : list str) : St * glob_res :=
   match step s (Stat dir) with
   | (s1, RInfo fi) =>
@@ -127,7 +128,9 @@ Fixpoint io_glob_f (fuel : nat) (s : St) (pattern : str) : St * glob_res :=
   match fuel with
   | O => (s, ([], GOutOfFuel))
   | S f =>
-    if negb (has_meta pattern) then
+    (* `if _, err := filepath.Match(pattern, ""); err != nil { return nil, err }` when match.go has it *)
+    if sw_checks_pattern_first && pattern_check_fails pattern then (s, ([], GBadPattern)) else
+    if negb (afero_has_meta sw_hasmeta_backslash pattern) then
       match step s (Stat pattern) with
       | (s1, RInfo _) => (s1, ([pattern], GNil))
       | (s1, _) => (s1, ([], GNil))
@@ -137,7 +140,7 @@ Fixpoint io_glob_f (fuel : nat) (s : St) (pattern : str) : St * glob_res :=
       let dir := if is_empty dir0 then s_dot
                  else if beqb dir0 s_slash then dir0
                  else chop_last dir0 in
-      if negb (has_meta dir) then io_glob1 s dir file []
+      if negb (afero_has_meta sw_hasmeta_backslash dir) then io_glob1 s dir file []
       else
         match io_glob_f f s dir with
         | (s1, (m, GNil)) => io_glob_over s1 file m []
